@@ -368,6 +368,187 @@ def shard_main(shard, nshards, tier, mode='set'):
     return {'counts': counts, 'fam': fam_counts, 'viols': viols, 'samples': samples, 'outcomes': len(outcomes)}
 
 
+# ---------------------------------------------------------------------------------------------
+# family "vars": variable bindings of every type, evaluated in situ (the XPathEvaluator API has no variable bindings)
+
+VARS_PATH_TEMPLATES = """<xsl:template name="path"><xsl:choose><xsl:when test="not(..)">/</xsl:when>
+<xsl:when test="count(.|../@*)=count(../@*)"><xsl:for-each select=".."><xsl:call-template name="path1"/></xsl:for-each>/@<xsl:value-of select="name()"/></xsl:when>
+<xsl:otherwise><xsl:call-template name="path1"/></xsl:otherwise></xsl:choose></xsl:template>
+<xsl:template name="path1"><xsl:if test=".."><xsl:for-each select=".."><xsl:call-template name="path1"/></xsl:for-each>/<xsl:value-of select="count(preceding-sibling::node())"/></xsl:if></xsl:template>
+"""
+VAR_NAMES = ['$n', '$m', '$s', '$k', '$t', '$e', '$w']
+
+
+def vars_cases(tier):
+    thorough = tier == 'thorough'
+    out = list(VAR_NAMES)
+    OPS = ['or', 'and', '=', '!=', '<', '<=', '>', '>=', '+', '-', '*', 'div', 'mod', '|']
+    for a in VAR_NAMES:
+        for b_ in VAR_NAMES:
+            for op in OPS:
+                if op == '|' and not (a in ('$n', '$m', '$e') and b_ in ('$n', '$m', '$e')):
+                    continue        # a union of a non-node-set is an error: tried once below
+                out.append('%s %s %s' % (a, op, b_))
+    PREDS = ['[1]', '[last()]', '[position()=$k]', '[$k]', '[@x]', '[@x=$s]', '[$t]', '[not($t)]', '[.=$n]', '[count(.|$m)=count($m)]', '[$w]', '[position()<$k+1][last()]',
+             '[$e]', '[$s]', '[name()=$s]']
+    for base in ['$n', '$m', '($n|$m)', '$e', '($m)']:
+        for p_ in PREDS:
+            out.append(base + p_)
+    AXES = ['child', 'descendant', 'parent', 'ancestor', 'following-sibling', 'preceding-sibling', 'following', 'preceding', 'attribute', 'self',
+            'descendant-or-self', 'ancestor-or-self']
+    TESTS = ['*', 'node()', 'b', 'text()']
+    for base in ['$n', '$m'] + (['($n|$m)', '$n[1]'] if thorough else []):
+        for ax in AXES:
+            for t in TESTS:
+                out.append('%s/%s::%s' % (base, ax, t))
+        out += [base + '//b', base + '/..', base + '/@x', base + '/b[1]', base + '/b[last()]/@x', base + '/*[$k]', base + '/*[.=$s]']
+    FUNCS = ['count($n)', 'count($m)', 'count($e)', 'sum($n/@x)', 'sum($m)', 'string($n)', 'string($m)', 'string($e)', 'name($m)', 'local-name($e)', 'name($n)',
+             'concat($s,$k)', 'concat($n,$t,$e)', 'substring($s,$k)', 'substring($n,$k,$k)', 'boolean($e)', 'boolean($n)', 'boolean($s)', 'boolean($k)', 'number($s)',
+             'number($n)', 'number($t)', 'not($n)', 'not($e)', 'string-length($s)', 'string-length($n)', 'normalize-space($s)', "translate($s,$s,'z')", 'contains($s,$s)',
+             'contains($n,$s)', 'starts-with(name($n),$s)', 'floor($k div 3)', 'round($k)', 'ceiling($w)', 'lang($s)', 'id($s)', 'id($n)', 'string($k)', 'string($t)',
+             'string($w)', '$k + count($n)', '-$k', '- $n', '$n = $n', '$n != $n', '$e = $e', '$m = $s', '$m < $k', '$n > $m', 'count($n | $m | $e)', 'count($n[@x] | $m)',
+             '$s | $n', '$k/b', '$t[1]', 'count($s)', 'sum($s)', '$undefined', '$n/$s', 'name($k)']
+    out += FUNCS
+    seen = set()
+    res = []
+    for t in out:
+        if t not in seen:
+            seen.add(t)
+            res.append(t)
+    return res
+
+
+def vars_shard(shard, nshards, tier):
+    import xpparse
+    docs = [d for d in G.docs()][:3 if tier != 'thorough' else 5]
+    w = vlib.Worker('xdrv', stderr_path=os.path.join(vlib.BUILD, 'tmp', 'c02v.%d.err' % shard))
+    counts = {'evaluations': 0, 'cases': 0, 'nontrivial': 0, 'fatal': 0, 'vars_transformations': 0}
+    viols = []
+    samples = []
+    cases = vars_cases(tier)
+    NS = ' '.join('xmlns:%s="%s"' % kv for kv in sorted(G.NSMAP.items()) if kv[0] in ('p', 'q'))
+    HEAD = ('<xsl:stylesheet version="1.0" xmlns:xsl="http://www.w3.org/1999/XSL/Transform" %s>'
+            '<xsl:variable name="n" select="//a"/><xsl:variable name="s" select="\'b\'"/><xsl:variable name="k" select="2"/>'
+            '<xsl:variable name="t" select="true()"/><xsl:variable name="e" select="/.."/><xsl:variable name="w" select="$k + count($e) div 2 + 0.5"/>' % NS)
+
+    def esc(t):
+        return t.replace('&', '&amp;').replace('<', '&lt;').replace('"', '&quot;')
+
+    def sheet(items):
+        body = []
+        for i, (text, kind) in items:
+            if kind == 'ns':
+                body.append('<e i="%d"><xsl:for-each select="%s"><h><xsl:call-template name="path"/></h></xsl:for-each></e>' % (i, esc(text)))
+            else:
+                body.append('<e i="%d" s="{%s}" b="{boolean(%s)}"/>' % (i, esc(text).replace('{', '{{').replace('}', '}}'), esc(text).replace('{', '{{').replace('}', '}}')))
+        return (HEAD + '<xsl:template match="/"><out><xsl:for-each select="/|//node()|//@*"><xsl:variable name="m" select=".//b|@*"/><c>%s</c></xsl:for-each></out></xsl:template>%s</xsl:stylesheet>'
+                % (''.join(body), VARS_PATH_TEMPLATES))
+
+    def ref_vars(d, node):
+        root = d.root
+        c0 = X.Ctx(root, ns=G.NSMAP)
+        v = {'n': X.evaluate(xpparse.parse_text('//a'), c0), 's': 'b', 'k': 2.0, 't': True, 'e': X.NodeSet([])}
+        v['w'] = 2.0 + 0.0 / 2 + 0.5
+        v['m'] = X.evaluate(xpparse.parse_text('.//b|@*'), X.Ctx(node, ns=G.NSMAP))
+        return v
+
+    B = 24
+    batches = [list(enumerate(cases))[i:i + B] for i in range(0, len(cases), B)]
+    jobs = [(di, bi) for di in range(len(docs)) for bi in range(len(batches))]
+    for ji, (di, bi) in enumerate(jobs):
+        if ji % nshards != shard:
+            continue
+        d = docs[di]
+        ctxnodes = [n for n in d.nodes if n.kind != R.NS]
+        # the reference decides the static type of each expression (and whether it is an error) at the root
+        items, errors, asts = [], [], {}
+        for i, text in batches[bi]:
+            try:
+                ast = xpparse.parse_text(text)
+            except Exception:
+                ast = None
+            asts[i] = ast
+            kind = None
+            if ast is not None:
+                try:
+                    v0 = X.evaluate(ast, X.Ctx(d.root, 1, len(ctxnodes), ref_vars(d, d.root), G.NSMAP))
+                    kind = 'ns' if isinstance(v0, X.NodeSet) else 'v'
+                except X.XPathError:
+                    kind = None
+            if kind is None:
+                errors.append((i, text))
+            else:
+                items.append((i, (text, kind)))
+        if di == 0:
+            counts['cases'] += len(batches[bi])
+        try:
+            r = w.request('tr', sheet(items), d.to_xml())
+            counts['vars_transformations'] += 1
+        except vlib.WorkerDied as wd:
+            counts['fatal'] += 1
+            viols.append(('vars|fatal|batch %d' % bi, {'doc': d.name, 'stderr': wd.stderr_tail[-1500:], 'expressions': [t for _, (t, _) in items]}))
+            continue
+        if r[0] != '0':
+            # find the expression that makes the batch fail: each one alone
+            for i, (text, kind) in items:
+                r1 = w.request('tr', sheet([(i, (text, kind))]), d.to_xml())
+                counts['vars_transformations'] += 1
+                if r1[0] != '0':
+                    viols.append(('vars|unexpected-error|%s' % text, {'expr': text, 'doc': d.name, 'xml': d.to_xml(), 'error': r1[1][:300]}))
+            continue
+        out = R.parse_xml(r[2])
+        cs = [c for c in out.docel.children if c.kind == R.ELEM]
+        if len(cs) != len(ctxnodes):
+            viols.append(('vars|context-count|batch %d' % bi, {'doc': d.name, 'expected': len(ctxnodes), 'got': len(cs)}))
+            continue
+        bad = set()
+        for pos, (node, c) in enumerate(zip(ctxnodes, cs)):
+            vars_ = ref_vars(d, node)
+            got = {}
+            for e in c.children:
+                a = dict((x.local, x.value) for x in e.attrs)
+                got[int(a['i'])] = (a, [h.string_value().strip() for h in e.children])
+            for i, (text, kind) in items:
+                if i in bad:
+                    continue
+                counts['evaluations'] += 1
+                try:
+                    v = X.evaluate(asts[i], X.Ctx(node, pos + 1, len(ctxnodes), vars_, G.NSMAP))
+                except X.XPathError as ex:
+                    viols.append(('vars|reference-error-in-some-context|%s' % text, {'expr': text, 'doc': d.name, 'context': d.path(node), 'error': str(ex)}))
+                    bad.add(i)
+                    continue
+                a, hs = got[i]
+                if kind == 'ns':
+                    exp = sorted(d.path(n) for n in v)
+                    if exp:
+                        counts['nontrivial'] += 1
+                    if sorted(hs) != exp:
+                        bad.add(i)
+                        viols.append(('vars|nodeset-%s|%s' % ('extra' if set(exp) < set(hs) else ('missing' if set(hs) < set(exp) else 'different'), text),
+                                      {'expr': text, 'doc': d.name, 'xml': d.to_xml(), 'context': d.path(node), 'expected': exp, 'got': hs}))
+                else:
+                    exp_s, exp_b = X.to_str(v), ('true' if X.to_bool(v) else 'false')
+                    if exp_s not in ('', 'false', 'NaN'):
+                        counts['nontrivial'] += 1
+                    if a.get('s') != exp_s or a.get('b') != exp_b:
+                        bad.add(i)
+                        viols.append(('vars|%s-wrong|%s' % (X.type_of(v), text),
+                                      {'expr': text, 'doc': d.name, 'xml': d.to_xml(), 'context': d.path(node), 'expected': [exp_s, exp_b], 'got': [a.get('s'), a.get('b')]}))
+        # expressions the reference rejects (type errors, unknown variable): each alone must fail
+        for i, text in errors:
+            counts['evaluations'] += 1
+            counts['nontrivial'] += 1
+            r1 = w.request('tr', sheet([(i, (text, 'v'))]), d.to_xml())
+            counts['vars_transformations'] += 1
+            if r1[0] == '0':
+                viols.append(('vars|accepted-invalid|%s' % text, {'expr': text, 'doc': d.name, 'output': r1[2][:300]}))
+        if len(samples) < 2:
+            samples.append('vars: %s ... on %s x %d context nodes' % (batches[bi][0][1], d.name, len(ctxnodes)))
+    w.close()
+    return {'counts': counts, 'fam': {'vars': counts['cases']}, 'viols': viols, 'samples': samples, 'outcomes': 0}
+
+
 def replay(path_):
     rec = json.load(open(path_))
     det = rec['detail']
@@ -383,7 +564,7 @@ def main():
     if rp:
         return replay(rp)
     t0 = time.time()
-    res = vlib.run_sharded(shard_main, (tier,))
+    res = vlib.run_sharded(shard_main, (tier,)) + vlib.run_sharded(vars_shard, (tier,))
     counts = vlib.merge_counts([r['counts'] for r in res])
     fam = vlib.merge_counts([r['fam'] for r in res])
     viols = [vlib.Violation(sig, det) for r in res for sig, det in r['viols']]
@@ -395,7 +576,10 @@ def main():
                 'compiled and evaluated by the real library through XPathEvaluator with EVERY node of each document as context, and '
                 'compared (type, boolean, number bit pattern incl. signed zero, string, node identities in order) with the reference '
                 'evaluator on the same AST. Token strings (family tokens) are all sequences up to length 3 (quick) / 4 (thorough) over '
-                'a 30-token alphabet, checked for acceptance and value against an independent parser. A case is an expression text; '
+                'a 30-token alphabet, checked for acceptance and value against an independent parser. Family vars: variable bindings of every '
+                'type (global and local node-sets, string, number, boolean, empty node-set, a number computed from other variables) in all '
+                'binary operations, filters, path continuations over 12 axes and core functions, evaluated in situ in a stylesheet for every '
+                'node of 3 / 5 documents as context, including type errors and an unbound variable. A case is an expression text; '
                 'non-trivial = its reference value is not empty/false/error in some context, or it is a rejection case.',
         'samples': samples or ['none'],
         'cases': counts['cases'], 'families': fam, 'fatal_outcomes': counts['fatal'],
